@@ -363,7 +363,9 @@ class CompGen:
       if isinstance(a.t, int) and a.w == w and len(a.path) >= 2 and a.path[-1][0] == "i" \
          and a.path[-2][0] == "a":
         lists.setdefault(repr(a.path[:-1]), []).append(a)
-    for key in sorted(lists):
+    keys = sorted(lists)
+    c.shuffle(keys)
+    for key in keys:
       elems = lists[key]
       n = self.list_len(elems[0].path[:-1])
       if n is None or len(elems) != n or n not in (2, 4):
@@ -380,6 +382,14 @@ class CompGen:
       for sg in self.signals:
         if sg["name"] == path[0][1] and sg["dims"]:
           return sg["dims"][0]
+    # a port list of a sub-component (possibly an element of a 1-2-D list of sub-components):
+    # s.m0[1].o1[<index>]
+    if len(path) >= 2 and path[0][0] == "a" and path[-1][0] == "a" and all(st[0] == "i" for st in path[1:-1]):
+      for sb in self.subs:
+        if sb["name"] == path[0][1] and len(sb["dims"]) == len(path) - 2:
+          for sg in self.spec["comps"][sb["cls"]]["signals"]:
+            if sg["name"] == path[-1][1] and sg["dims"]:
+              return sg["dims"][0]
     return None
 
   def expr(self, w, depth, env):
